@@ -37,6 +37,7 @@ static int x[MAXT]; // THE symbolic assignment of the time points (x[0] = 0 is t
 
 struct cn { int from, to, d; size_t litx; };
 static const void *problem_cl[8]; static int n_problem; // clauses added by the scenario itself (premises, not explanations)
+static size_t proot[16]; static int n_proot; // literals asserted at root level by the scenario itself (facts of the problem)
 static bool is_problem(const void *c) { for (int i = 0; i < n_problem; i++) if (problem_cl[i] == c) return true; return false; }
 static cn cs[MAXCN];
 static int ncs;
@@ -177,6 +178,20 @@ static void check_state(sat_core &s, TH &th)
   }
   for (size_t v = 1; v < s.assigns.size(); v++)
     if (s.assigns[v] != Undefined && s.level[v] == 0) { bool kn; bool val = aval(lit(v, s.assigns[v] == True), kn); root_ok = root_ok & (!kn || val); }
+  // (E0) root-level assignments are premises of (L) and (E) above, so they are checked on their own against the PROBLEM: the scenario's clauses
+  // and root facts (a wrongly learnt unit clause shows up here and nowhere else)
+  {
+    bool prob = x[0] == 0;
+    for (auto c : s.constrs)
+      if (is_problem(c)) { clause *k = static_cast<clause *>(c); bool sat = false; for (auto &l : k->lits) { bool kn; sat = sat | aval(l, kn); } prob = prob & sat; }
+    for (int i = 0; i < n_proot; i++) { bool kn; bool v = aval(lit(proot[i] >> 1, proot[i] & 1), kn); prob = prob & (!kn || v); }
+    for (int i = 0; i < ncs; i++)
+    {
+      const lit l = mklit(cs[i].litx);
+      if (variable(l) == FALSE_var || s.value(l) == Undefined || s.level[variable(l)] != 0) continue;
+      CHECK(!prob || holds(cs[i]) == (s.value(l) == True), "(E0) a root-level assignment of a constraint literal is entailed by the problem's clauses and root facts");
+    }
+  }
   bool dec_ok = true;
   for (const auto &d : s.decisions) { bool kn; bool val = aval(d, kn); dec_ok = dec_ok & (!kn || val); }
   for (int i = 0; i < ncs; i++)
@@ -214,7 +229,7 @@ __attribute__((noinline)) static void scenario()
   var tp[MAXT];
   tp[0] = 0;
   for (int i = 1; i <= T; i++) tp[i] = th.new_var();
-  ncs = 0; n_problem = 0;
+  ncs = 0; n_problem = 0; n_proot = 0;
   for (int c = 0; c < NC; c++)
   {
     cs[ncs].from = rd_(); cs[ncs].to = rd_(); cs[ncs].d = rd_();
@@ -275,6 +290,7 @@ __attribute__((noinline)) static void scenario()
       break;
     case 2:
       if (!s.root_level() || !s.prop_q.empty()) break;
+      if (n_proot < 16) proot[n_proot++] = index(l);
       if (!s.new_clause({l}) || !s.propagate()) { check_unsat(s, &l); alive = false; }
       else check_state(s, th);
       break;
